@@ -304,7 +304,16 @@ def _delay_queries(factory, inner_name, label):
                     return queries, ("sat", vals)
                 if res != "unsat":
                     return queries, ("unknown", dict(mode=mode, rate=rate, n=n))
-    return queries, ("unsat", None)
+    # vacuity guard: with a deliberately wrong reference (cap applied AFTER the jitter) the same encoding must be refutable
+    g = z3.Solver()
+    g.set("timeout", 20000)
+    gi, gm = z3.Ints("gi gm")
+    gr = z3.Real("gr")
+    g.add(gi >= 0, gm >= 0, gr >= 0, gr < 1, z3.If(z3.ToReal(gi) * 8 < z3.ToReal(gm), z3.ToReal(gi) * 8, z3.ToReal(gm)) * gr
+          != z3.If(z3.ToReal(gi) * 8 * gr < z3.ToReal(gm), z3.ToReal(gi) * 8 * gr, z3.ToReal(gm)))
+    if str(g.check()) != "sat":
+        return queries, ("unknown", dict(guard="vacuity guard failed"))
+    return queries + 1, ("unsat", None)
 
 
 def _replay_delay(factory_name, vals):
